@@ -37,10 +37,56 @@ class Disagreement(Exception):
 # ------------------------------------------------------------------------------------------------
 # index of the emitted file
 
+def present_or_else(src: str):
+    """PRESENTATION of emitted text for Verus (round 11): `X.or_else(|| E)` with a plain identifier X and a parameterless closure becomes
+    `(match X { Some(v__) => Some(v__), None => E })` - the definition of Option::or_else (E is evaluated only for None in both forms).
+    Verus infers nothing about a closure without a postcondition, so the original form leaves every obligation of the function undecided.
+    Only the part of the file before the helper modules is touched.  Returns (text, line numbers of the rewritten occurrences)."""
+    from ..rustlex import lex, match_close, _next_sig
+    cut = src.find('pub mod error {')
+    head = src if cut < 0 else src[:cut]
+    toks = lex(head)
+
+    def prev_sig(k):
+        k -= 1
+        while k >= 0 and toks[k].kind in ('ws', 'comment', 'doc'):
+            k -= 1
+        return k
+    reps = []
+    for k, t in enumerate(toks):
+        if t.kind == 'ident' and t.text == 'or_else':
+            d, o = prev_sig(k), _next_sig(toks, k + 1)
+            r = prev_sig(d) if d >= 0 else -1
+            rr = prev_sig(r) if r >= 0 else -1
+            if d < 0 or r < 0 or toks[d].text != '.' or toks[r].kind != 'ident' or toks[o].text != '(' or (rr >= 0 and toks[rr].text in ('.', '::')):
+                continue
+            b = _next_sig(toks, o + 1)
+            if toks[b].text == '||':
+                body_from = _next_sig(toks, b + 1)
+            elif toks[b].text == '|' and toks[_next_sig(toks, b + 1)].text == '|':
+                body_from = _next_sig(toks, _next_sig(toks, b + 1) + 1)
+            else:
+                continue
+            c = match_close(toks, o)
+            reps.append((toks[r].start, toks[c].end, toks[r].text, head[toks[body_from].start:toks[c].start], head.count('\n', 0, toks[r].start) + 1))
+    if not reps:
+        return src, []
+    out, cur = [], 0
+    for a, e, recv, body, _ in reps:
+        if a < cur:
+            continue
+        out.append(head[cur:a])
+        out.append(f'(match {recv} {{ Some(v__) => Some(v__), None => {body} }})')
+        cur = e
+    out.append(head[cur:])
+    return ''.join(out) + (src[cut:] if cut >= 0 else ''), [r[4] for r in reps]
+
+
 class Emitted:
     def __init__(self, path: str):
         self.path = path
         self.src = open(path, encoding='utf-8').read()
+        self.src, self.presented_or_else = present_or_else(self.src)
         self.items = parse_items(self.src)
         self.mods: Dict[str, Item] = {}
         self.helper_mods: Dict[str, Item] = {}
